@@ -39,6 +39,10 @@ pub struct ExecPlan {
     /// the clock of this simulated process: (monotonic ns, wall ns, step per reading); None = reference clock
     #[serde(default)]
     pub clock: Option<(u64, u64, u64)>,
+    /// run this execution in a forked child of a worker that has never compiled anything, so that
+    /// ALL statics of rsass - also plain ones with const initialisers - are in their initial state
+    #[serde(default)]
+    pub fresh_process: bool,
 }
 
 /// The clock every reference execution runs under.
@@ -71,6 +75,7 @@ impl Res {
     }
 }
 
+#[derive(Clone, Serialize, Deserialize)]
 pub struct ExecResult {
     /// results[task][k]
     pub results: Vec<Vec<Option<Res>>>,
@@ -148,7 +153,80 @@ pub fn compile(item: &Item, yield_in_loader: bool) -> Res {
     }
 }
 
+/// One execution.  Lazily initialised statics (`LazyLock`, `OnceLock`, `Once`, thread-locals) are
+/// per execution anyway (shim); plain `static`s with const initialisers are not, so every eighth
+/// plan (`fresh_process`) is run in a new process (this binary re-executed, plan on stdin) -
+/// there an initialisation race on such a static exists, and nothing can have leaked in.  Process
+/// creation is the scarce resource of this sandbox (§11.5), hence a stratum and not every run.
+/// `VERIF_NO_FORK=1` keeps everything in-process (for debuggers).
 pub fn execute(plan: &ExecPlan) -> ExecResult {
+    if !plan.fresh_process || std::env::var_os("VERIF_NO_FORK").is_some() {
+        return execute_here(plan);
+    }
+    execute_in_new_process(plan)
+}
+
+/// One execution in a new process: fork+exec of this binary (`exec-one`: plan on stdin, result on stdout).
+fn execute_in_new_process(plan: &ExecPlan) -> ExecResult {
+    use std::io::Write;
+    use std::os::unix::process::ExitStatusExt;
+    let died = |why: String| ExecResult {
+        results: plan.tasks.iter().map(|t| vec![None; t.len()]).collect(),
+        failure: Some(why),
+        interleaving: 0,
+        shared_locks: 0,
+        shared_acquisitions: 0,
+        acquisitions: 0,
+        context_switches: 0,
+        contended_lazies: 0,
+        clock_reads: 0,
+    };
+    let exe = match std::env::current_exe() {
+        Ok(e) => e,
+        Err(_) => return execute_here(plan),
+    };
+    let mut child = match std::process::Command::new(exe)
+        .arg("exec-one")
+        .stdin(std::process::Stdio::piped())
+        .stdout(std::process::Stdio::piped())
+        .stderr(std::process::Stdio::null())
+        .spawn()
+    {
+        Ok(c) => c,
+        Err(_) => return execute_here(plan),
+    };
+    if let Some(mut si) = child.stdin.take() {
+        let _ = si.write_all(&serde_json::to_vec(plan).unwrap_or_default());
+    }
+    let out = match child.wait_with_output() {
+        Ok(o) => o,
+        Err(e) => return died(format!("wait: {e}")),
+    };
+    if let Some(sig) = out.status.signal() {
+        return died(format!("the simulated process died with signal {sig} (stack overflow or abort inside a compilation)"));
+    }
+    match serde_json::from_slice::<ExecResult>(&out.stdout) {
+        Ok(r) => r,
+        Err(e) => died(format!("the simulated process ended without a result ({:?}): {e}", out.status)),
+    }
+}
+
+/// Child side of `execute_in_new_process`.
+pub fn cmd_exec_one() -> i32 {
+    use std::io::{Read, Write};
+    let mut text = String::new();
+    let _ = std::io::stdin().read_to_string(&mut text);
+    let Ok(mut plan) = serde_json::from_str::<ExecPlan>(&text) else {
+        eprintln!("HARNESS-ERROR: exec-one: bad plan");
+        return 2;
+    };
+    plan.fresh_process = false;
+    let r = execute_here(&plan);
+    let _ = std::io::stdout().write_all(&serde_json::to_vec(&r).unwrap_or_default());
+    0
+}
+
+fn execute_here(plan: &ExecPlan) -> ExecResult {
     let ntasks = plan.tasks.len();
     let results: Arc<StdMutex<Vec<Vec<Option<Res>>>>> =
         Arc::new(StdMutex::new(plan.tasks.iter().map(|t| vec![None; t.len()]).collect()));
@@ -246,6 +324,7 @@ pub fn reference(item: &Item) -> Res {
         yield_in_loader: false,
         tasks: vec![vec![item.clone()]],
         clock: None,
+        fresh_process: false,
     };
     let r = execute(&plan);
     match (&r.failure, r.results[0][0].clone()) {
